@@ -9,7 +9,7 @@ TARGETS = ['pytezos.michelson.types.big_map.BigMapType.get', 'pytezos.michelson.
 STUBS = ['node shell -> fake holding the on-chain big_map (which keys exist is chosen by the solver, their values are symbolic)', 'format_stdout -> no-op',
          'str(int)/int(str) -> opaque decimal token']
 BOUNDS = {'quick': 'key universe {0,1,2} (nat keys, real Blake2b hashes); every split of the universe into on-chain keys / locally set keys / locally removed keys; values unbounded symbolic ints; '
-                   'one operation GET/MEM/UPDATE/GET_AND_UPDATE with solver-chosen key and symbolic argument from every such state (inductive step), followed by the lazy diff; fresh and existing big_maps',
+                   'one operation GET/MEM/UPDATE/GET_AND_UPDATE/DUP with solver-chosen key and symbolic argument from every such state (inductive step), followed by the lazy diff; fresh and existing big_maps',
           'thorough': 'key universe of 4 keys and pair keys'}
 OUTSIDE = ['larger key universes', 'big_map copy (action "copy")', 'values that are themselves big_maps']
 ASSUMPTIONS = ['state invariant: local entries sorted and distinct, removed keys disjoint from local entries; the replay of every counterexample rebuilds the state by real UPDATE instructions from a clean big_map']
@@ -152,6 +152,17 @@ def _check_all(P, choose, value, check, fail):
         out = mich.run_instr(mich.I({'prim': 'MEM'}), [U[k], bm], ctx)
         check(out[0].value == (model[k] is not None), 'MEM agrees with the layered dictionary')
         post = bm
+    elif op == 'DUP':
+        # the copy made by DUP (and the value left below it) must behave as the same layered dictionary
+        out = mich.run_instr(mich.I({'prim': 'DUP'}), [bm], ctx)
+        if len(out) != 2:
+            fail('DUP did not leave two values')
+        for i in range(len(U)):
+            g = mich.run_instr(mich.I({'prim': 'GET'}), [U[i], out[1]], ctx)[0]
+            check(_opt_eq(g, model[i]), f'GET key {i} on the value below the copy after DUP')
+            m_ = mich.run_instr(mich.I({'prim': 'MEM'}), [U[i], out[0]], ctx)[0]
+            check(m_.value == (model[i] is not None), f'MEM key {i} on the copy after DUP')
+        post = out[0]
     else:
         some = choose('some', 0, 1)
         v = value('newval') if some else None
@@ -340,6 +351,9 @@ def obligations(tier):
                 P = {'op': op, 'fresh': fresh, 'nkeys': 3 if (q or keys == 'pair') else 4, 'keys': keys}
                 obs.append(Ob(f'{"fresh" if fresh else "existing"}/{op}/{keys}', 'bvx', sym_step, conc_step, P, timeout=t,
                               bounds=f'every state over {P["nkeys"]} keys (6 situations per key), solver-chosen key, symbolic values; then the lazy diff', targets=TARGETS))
+        P = {'op': 'DUP', 'fresh': fresh, 'nkeys': 3, 'keys': 'nat'}
+        obs.append(Ob(f'{"fresh" if fresh else "existing"}/DUP/nat', 'bvx', sym_step, conc_step, P, timeout=t,
+                      bounds='every state over 3 keys (6 situations per key); DUP, then every key observed on both values and the lazy diff of the copy', targets=TARGETS))
         if not fresh:
             # the first big_map allocated on a chain has id 0
             for op in ('GET', 'MEM', 'UPDATE', 'GET_AND_UPDATE'):
